@@ -1,6 +1,126 @@
-import CCT.Model.Auth
-/-! # C14 (theorems; work in progress) -/
+import CCT.Lemmas.Rules
+import CCT.Props.C03
+import CCT.Props.C05
+/-!
+# C14 — the delegating-metadata checker enforces exactly the documented schema
+
+`Schema` (CCT/Lemmas/CheckerMain.lean) is written from the documented structure: a two-field signed envelope whose signature
+values are all well-formed entries and whose signed part (`SignedOK`) has a supported type, a spec-version string, well-formed
+delegations (`DelegationOK`: duplicate-free list of well-formed keys + an `int` threshold ≥ 1), a well-formed UTC expiration, at
+least one of version/timestamp (version mandatory for root), each well formed if present.
+-/
 namespace CCT.C14
-open CCT
-theorem placeholder : okU = .ok () := rfl
+open CCT CCT.C15
+open Classical
+
+/-- **the checker accepts an object if and only if it satisfies the documented schema** -/
+theorem checker_iff_schema (m : J) : checkDelegatingMdJ m = .ok () ↔ Schema m := by
+  rw [checkDelegatingMd_eq]; by_cases h : Schema m <;> simp [h]
+
+/-- … and otherwise raises an argument error: never anything else -/
+theorem checker_total (m : J) : checkDelegatingMdJ m = .ok () ∨ checkDelegatingMdJ m = .error .arg := by
+  rw [checkDelegatingMd_eq]; by_cases h : Schema m <;> simp [h]
+
+theorem delegation_iff (d : J) : checkDelegationJ d = .ok () ↔ DelegationOK d := by
+  rw [checkDelegation_eq]; by_cases h : DelegationOK d <;> simp [h]
+
+theorem delegations_iff (d : J) : checkDelegationsJ d = .ok () ↔ DelegationsOK d := by
+  rw [checkDelegations_eq]; by_cases h : DelegationsOK d <;> simp [h]
+
+theorem utc_iff (v : J) : checkUtcJ v = .ok () ↔ WfUtc v := by
+  rw [checkUtc_eq]; by_cases h : WfUtc v <;> simp [h]
+
+theorem naturalInt_iff (v : J) : checkNaturalIntJ v = .ok () ↔ NaturalInt v := by
+  rw [checkNaturalInt_eq]; by_cases h : NaturalInt v <;> simp [h]
+
+/-- thresholds and versions are integers: no float, string or null passes, and `0`, negatives do not either -/
+theorem naturalInt_cases (v : J) (h : NaturalInt v) : (∃ z : Int, v = .int z ∧ 1 ≤ z) ∨ v = .bool true := by
+  obtain ⟨z, hz, h1⟩ := h
+  cases v with
+  | int z' => simp only [asInt] at hz; cases hz; exact Or.inl ⟨_, rfl, h1⟩
+  | bool b => cases b <;> simp only [asInt] at hz <;> cases hz <;> simp at h1 ⊢
+  | _ => simp [asInt] at hz
+
+theorem dictGet_dictDel_self : ∀ (kvs : List (PStr × J)) (k : PStr), (kvs.map (·.1)).Nodup → dictGet k (dictDel k kvs) = none
+  | [], _, _ => rfl
+  | (k', v) :: r, k, h => by
+    simp only [List.map_cons, List.nodup_cons] at h
+    simp only [dictDel]
+    by_cases e : k' = k
+    · subst e
+      simp only [if_true]
+      -- k' is not a key of r
+      induction r with
+      | nil => rfl
+      | cons p r ih =>
+        obtain ⟨k2, v2⟩ := p
+        simp only [List.map_cons, List.mem_cons, not_or, List.nodup_cons] at h
+        have : ¬ k2 = k' := fun e => h.1.1 e.symm
+        simp only [dictGet, this, if_false]
+        exact ih ⟨h.1.2, h.2.2⟩
+    · simp only [e, if_false, dictGet]
+      exact dictGet_dictDel_self r k h.2
+
+/-- **every change that removes a required field is rejected** -/
+theorem required_field_removed (kvs : List (PStr × J)) (hn : (kvs.map (·.1)).Nodup) (f : PStr)
+    (hf : f ∈ [ps! "type", ps! "metadata_spec_version", ps! "delegations", ps! "expiration"]) :
+    ¬ SignedOK (.obj (dictDel f kvs)) := by
+  rintro ⟨k', e, ⟨ty, hty, _⟩, ⟨sv, hsv⟩, ⟨d, hd, _⟩, ⟨x, hx, _⟩, _⟩
+  cases e
+  have := dictGet_dictDel_self kvs f hn
+  simp only [List.mem_cons, List.mem_nil_iff, or_false] at hf
+  rcases hf with rfl | rfl | rfl | rfl
+  · rw [this] at hty; cases hty
+  · rw [this] at hsv; cases hsv
+  · rw [this] at hd; cases hd
+  · rw [this] at hx; cases hx
+
+/-- version is mandatory for root metadata -/
+theorem root_needs_version (kvs : List (PStr × J)) (hty : dictGet (ps! "type") kvs = some (.str (ps! "root")))
+    (hv : dictGet (ps! "version") kvs = none) : ¬ SignedOK (.obj kvs) := by
+  rintro ⟨k', e, _, _, _, _, _, h, _⟩; cases e
+  have := h hty; simp [dictHas, hv] at this
+
+/-- at least one of version and timestamp -/
+theorem needs_version_or_timestamp (kvs : List (PStr × J)) (h1 : dictGet (ps! "version") kvs = none)
+    (h2 : dictGet (ps! "timestamp") kvs = none) : ¬ SignedOK (.obj kvs) := by
+  rintro ⟨k', e, _, _, _, _, h, _⟩; cases e
+  simp [dictHas, h1, h2] at h
+
+/-- a duplicated key in a delegation's key list is rejected, under any spelling that the key validator accepts (there is only one) -/
+theorem duplicate_key_rejected (ks : List J) (h : ¬ ((ks.map strOf).map unhex).Nodup) : ¬ KeyListOK (.arr ks) := by
+  intro hk
+  have : checkListOfHexKeysJ (.arr ks) = .ok () := by rw [checkListOfHexKeys_eq]; simp [hk]
+  exact h (keylist_nodup_bytes ks this)
+
+/-- **the verifiers never run into an internal error on anything the checker accepts**: with accepted trusted metadata
+`verify_delegation` ends in acceptance or one of its documented errors, `verify_root` likewise -/
+theorem accepted_never_internal (C : CryptoFns) (name : PStr) (u t : J) (gpg : Bool) (_ht : checkDelegatingMdJ t = .ok ()) :
+    (verifyDelegationJ C name u t gpg).toBool = true ∨ ∃ e, verifyDelegationJ C name u t gpg = .error e ∧ e.documented = true := by
+  rw [verifyDelegation_eq]
+  by_cases h1 : ¬ Schema t ∨ isSignableJ u ≠ true
+  · rw [if_pos h1]; right; exact ⟨_, rfl, rfl⟩
+  · rw [if_neg h1]
+    have hT : Schema t := by by_cases h : Schema t; exact h; exact absurd (Or.inl h) h1
+    have hU : isSignableJ u = true := by by_cases h : isSignableJ u = true; exact h; exact absurd (Or.inr h) h1
+    by_cases h2 : TypeMismatch name u
+    · rw [if_pos h2]; right; exact ⟨_, rfl, rfl⟩
+    · rw [if_neg h2]
+      cases hr : roleOf t name with
+      | none => right; exact ⟨_, rfl, rfl⟩
+      | some d =>
+        simp only [rule_verdict C gpg d u (mem_delegations_ok hT hr) hU]
+        by_cases hm : RuleMet C gpg d u
+        · left; simp [hm, Except.toBool]
+        · right; simp only [hm, if_false]; exact ⟨_, rfl, rfl⟩
+
+-- non-vacuity: a concrete document satisfying the schema, and the checker accepting it
+def sampleMd : J :=
+  .obj [(ps! "signatures", .obj []),
+        (ps! "signed", .obj [(ps! "type", .str (ps! "root")), (ps! "metadata_spec_version", .str (ps! "0.6.0")),
+          (ps! "delegations", .obj [(ps! "root", .obj [(ps! "pubkeys", .arr [.str (List.replicate 64 97)]), (ps! "threshold", .int 1)])]),
+          (ps! "expiration", .str (ps! "2031-07-13T05:46:45Z")), (ps! "version", .int 1)])]
+example : checkDelegatingMdJ sampleMd = .ok () := by decide +kernel
+example : Schema sampleMd := (checker_iff_schema _).mp (by decide +kernel)
+
 end CCT.C14
